@@ -14,6 +14,7 @@ m=json.load(open('$d/meta.json'))
 cs=re.findall(r'C\d\d', m.get('breaks',''))
 cs=[c for c in cs if c!='C17']
 print(' '.join(dict.fromkeys(cs)))")
+  [ -z "$checks" ] && continue   # property-preserving refactorings are handled by silent_check.sh
   git -C /repo apply /verif/$d/patch.diff || { echo "$sid: patch does not apply"; continue; }
   results=""
   for c in $checks; do
